@@ -852,6 +852,10 @@ def check_trace(case, res, strict_fre=True):
                 # ... and it is justified only if memory is really short
                 ideal = o['top'] - cfg['var_start'] - o['scur'] - o['acur'] - ref.live_bytes()
                 need = 3 * ref.work + 64
+                if st[0] == 'input':
+                    # all typed strings stay rooted until every variable has been assigned, and each variable
+                    # (an 11-element array at most) may have to be created
+                    need += 3 * sum(len(w) for w in st[2] if isinstance(w, str)) + 50 * len(st[1])
                 if ideal > need:
                     return ('%s: error %d although a collection leaves %d bytes free and the statement '
                             'handles at most %d bytes of strings' % (where, ierr, ideal, ref.work))
